@@ -270,7 +270,7 @@ REGISTRY = {
     ),
     "C09": dict(
         jobs=lambda tier, seed: __import__("vf.props.dsl", fromlist=["x"]).configs(tier, seed),
-        job_of_config=lambda cfg: ("vf.props.dsl", "c09_shipped" if cfg.get("shipped") else ("c09_docstring" if cfg.get("docstring") else "c09_generated")),
+        job_of_config=lambda cfg: ("vf.props.dsl", "c09_shipped" if cfg.get("shipped") else ("c09_docstring" if cfg.get("docstring") else ("c09_handwritten" if cfg.get("handwritten") else "c09_generated"))),
         level="translation_validation",
         post=lambda results, tier: {
             "programs": sum((r.get("sample") or {}).get("programs", 1) if r.get("_kind") == "done" else 0 for r in results),
